@@ -9,6 +9,11 @@ from ..cases import Stats, run_program, replay_conformance, std_coverage
 LEVEL = 'model_checking'
 
 
+SLIDE_TOKENS = [[0x5c, 0x78], [0x5c, 0x5c], [0x5c, 0x22], [0x22], [0x5c, 0x6e], [0x20, 0x20], [0x5c, 0x78, 0x34, 0x31], [0x0a], [0x27], [0x3b], [0x23], [0x09], [0x5c], [0x00],
+                [0x5c, 0x5c, 0x78], [0x5c, 0x30], [0xff, 0x5c], [0x2c, 0x20], [0x25, 0x73], [0x7b, 0x7d]]
+SLIDE_CHARS = [0x20, 0x2c, 0x27, 0x22, 0x3b, 0x23, 0x5c, 0x09, 0x2d, 0x0a, 0x00, 0x7f]
+
+
 def esc(b):
     return '\\x%02x' % b
 
@@ -196,6 +201,13 @@ def items(tier):
     for n in (255, 256, 257, 300, 513):
         out.append((i, 'longstr', n))
         i += 1
+    # a byte sequence that an emitter may mis-handle when it lands on a line/piece boundary, at EVERY position of a long constant
+    for k in range(len(SLIDE_TOKENS)):
+        out.append((i, 'slide', k))
+        i += 1
+    for k in range(len(SLIDE_CHARS)):
+        out.append((i, 'slidearr', k))
+        i += 1
     import itertools as _it
     for vals in ([1, 2, 3, 200], [104, 105, 33], [0], [255, 0, 255, 0, 255, 0, 255, 0, 1]):
         for order in _it.permutations('bicy', 4):
@@ -245,6 +257,34 @@ def run_item(item, tier):
                'const byte[] v = l is byte[]; write(v); write(v.length); write(l is bool); writeln(); }\n')
         run_program(st, src, [[]], Ws, f'string of {n} bytes written, measured, indexed and viewed as bytes')
         st.add('cases')
+    elif kind == 'slide':
+        tok = SLIDE_TOKENS[item[2]]
+        L = 150
+        body = []
+        for p in range(0, L - len(tok) + 1, 1 if tier == 'thorough' or len(tok) < 3 else 1):
+            text = 'a' * p + ''.join(esc(b) for b in tok) + 'a' * (L - len(tok) - p)
+            body.append(f'write("{text}"); writeln("{text}".length);')
+        src = 'empty @is_you() {\n' + '\n'.join(body) + '\n}\n'
+        run_program(st, src, [[]], Ws[:1], f'the bytes {tok} at every position of a {L}-byte string literal')
+        st.add('cases', len(body))
+        st.sample({'slide_token_bytes': tok, 'string_length': L})
+    elif kind == 'slidearr':
+        c = SLIDE_CHARS[item[2]]
+        L = 48
+        glob, body = [], []
+        for p in range(L):
+            els = ["'a'"] * p + [f"'{esc(c)}'" if not (0x20 <= c < 0x7f and c not in (0x27, 0x5c)) else f"'{chr(c)}'"] + ["'b'"] * (L - 1 - p)
+            glob.append(f'const byte[] t{p} = [{", ".join(els)}];')
+            body.append(f'write(t{p}); writeln(t{p}.length);')
+            if p % 4 == 1:
+                glob.append(f'const int[] u{p} = [{", ".join(els)}];')
+                body.append(f'for (int k = 0; k < u{p}.length; k += 1) {{ write(u{p}[k] is byte); }} writeln(u{p}[{p}]);')
+            if p % 4 == 3:
+                body.append(f'write([{", ".join(els)}]); writeln();')
+        src = '\n'.join(glob) + '\nempty @is_you() {\n' + '\n'.join(body) + '\n}\n'
+        run_program(st, src, [[]], Ws[:1], f'the character {c:#x} at every position of a {L}-element constant byte table written with character literals')
+        st.add('cases', L)
+        st.sample({'slide_char': c, 'table_length': L})
     elif kind == 'len':
         run_program(st, length_program(item[2], min(65, item[2] + 13)), [[]], Ws, f'string lengths {item[2]}..')
         st.add('cases', 13)
@@ -284,6 +324,8 @@ def coverage(total, tier):
         'pairs': ('all 65536 ordered byte pairs' if tier == 'thorough' else 'ordered pairs with first byte in {\\\\, ", \', LF, CR, NUL, 0xff, A, ;, space, DEL, 0x80} x all 256') + ' (+ a 3-byte string indexed in the middle)',
         'triples': ('16 x 16 special leading byte pairs x all 256 third bytes, as strings and inside a constant byte array' if tier == 'thorough' else 'thorough tier only'),
         'long strings': 'strings of 255, 256, 257, 300, 513 bytes as literal, local, global, parameter and byte view (written, .length, last and 256th index)',
+        'sliding': f'{len(SLIDE_TOKENS)} byte sequences (backslash + x, two backslashes, backslash + quote, quote, backslash + n, two blanks, a spelled-out \\\\x41, LF, apostrophe, ;, #, TAB, lone backslash, NUL, ...) at every position of a 150-byte string '
+                   f'literal; {len(SLIDE_CHARS)} characters (blank, comma, quotes, ;, #, backslash, TAB, -, LF, NUL, DEL) at every position of 48-element constant byte / int tables written with character literals (line folding of long directives)',
         'lengths': 'strings of every length 0..64 (written, length, truthiness, last and middle index)',
         'file': 'a source file with raw control / non-ASCII characters (TAB, BS, VT, FF, ESC, DEL, NBSP, e-acute, U+2028, tab runs) inside string and character literals, compiled by `python -m hidc`',
         'viaregs': 'string -> const byte[] views and writes where the string comes from a local, a global, a call result, a const and a mutable string array element (5 byte patterns)',
